@@ -283,14 +283,14 @@ class Program:
 
     # -- torch ----------------------------------------------------------------------------------
     def build(self, dtype=torch.float64, narrow=False):
-        """narrow=True: every leaf requiring grad is a FLOAT32 tensor that the computation upcasts at once
+        """narrow=True (or a set of leaf ids): every (listed) leaf requiring grad is a FLOAT32 tensor that the computation upcasts at once
         (`p.to(dtype)`, a master-weights / mixed-precision arrangement): the keys the caller differentiates
         with respect to have another dtype than everything computed from them"""
         ts, use = [], []
         for ins in self.instrs:
             if ins[0] == "leaf":
                 _, shape, values, req = ins[:4]
-                ldt = torch.float32 if (narrow and req) else dtype
+                ldt = torch.float32 if (req and (narrow is True or (narrow and len(ts) in narrow))) else dtype
                 t = torch.tensor(values, dtype=ldt).reshape(shape)
                 if len(ins) > 4:
                     t = ts[ins[4]].detach()              # same storage, same data_ptr, a different leaf
